@@ -29,20 +29,20 @@ Definition oc_eqb (a b : oc) : bool :=
   opt_eqb json_eqb (oc_value a) (oc_value b).
 
 (* observed end state of a task *)
-Inductive otend := OFinished (o : oc) | OCancelled | OExcepted.
+Inductive otend := OFinished (o : oc) | OCancelled | OExcepted (printable : bool).
 
 Definition otend_of (e : tend) : otend :=
   match e with
   | Finished r => OFinished (oc_of_sres r)
   | Cancelled => OCancelled
-  | Excepted => OExcepted
+  | Excepted p => OExcepted p
   end.
 
 Definition otend_eqb (a b : otend) : bool :=
   match a, b with
   | OFinished x, OFinished y => oc_eqb x y
   | OCancelled, OCancelled => true
-  | OExcepted, OExcepted => true
+  | OExcepted s, OExcepted t => Bool.eqb s t
   | _, _ => false
   end.
 
